@@ -80,7 +80,7 @@ func c25MacroParts(c *core.Ctx, pf *parsedFile, idx int) {
 }
 
 func c25ReplayB(c *core.Ctx, cas *c25Case) {
-	pf := loadCorpusFile(cas.File)
+	pf := c25Load(cas.File)
 	if pf.Status != stOK {
 		return
 	}
